@@ -226,6 +226,17 @@ func c08oracle(d c08desc) (claimed string, why string, own bool) {
 func c08exec(c *h.Ctx, cs *h.Case) {
 	outcome := []string{}
 	for _, op := range cs.Ops {
+		if tk := strings.Fields(op); len(tk) > 2 && tk[0] == "c08" && (tk[1] == "honestcert" || tk[1] == "pair") {
+			var obs, note string
+			if tk[1] == "honestcert" {
+				obs, note = c08honestCert(tk[2:], cs)
+			} else {
+				obs, note = c08pair(tk[2:], cs)
+			}
+			cs.Impl = append(cs.Impl, obs)
+			outcome = append(outcome, obs+" "+note)
+			continue
+		}
 		d, ok := c08parse(op)
 		if !ok {
 			cs.Impl = append(cs.Impl, "bad-op")
@@ -394,16 +405,16 @@ func c08handshake(d c08desc, cs *h.Case) (string, string) {
 	switch {
 	case hs == "ok" && claimed == "":
 		cs.Fail("unproven-key-accepted:"+tag+":"+c08row(d), fmt.Sprintf("the honest node completed the handshake although %s (%s)", why, d.line()))
-	case hs == "ok" && d.time != "ok":
+	case hs == "ok" && !c08timeValid(d.time):
 		// "expired / not yet valid" are deviations the property names: a certificate is the
 		// peer's credential for this handshake only inside its validity period
-		cs.Fail("certificate-outside-validity-accepted:"+tag+":"+d.time, fmt.Sprintf("the honest node completed the handshake with a certificate that is %s (%s)", map[string]string{"expired": "expired", "future": "not yet valid"}[d.time], d.line()))
+		cs.Fail("certificate-outside-validity-accepted:"+tag+":"+d.time, fmt.Sprintf("the honest node completed the handshake with a certificate that is %s (%s)", map[string]string{"expired": "expired", "future": "not yet valid", "justexpired": "expired since 90 s", "justfuture": "not valid for another 90 s"}[d.time], d.line()))
 	case hs == "ok" && d.role == "dial" && claimed != d.them:
 		cs.Fail("dialler-reached-other-key:"+tag, fmt.Sprintf("dialled %s, accepted a peer proving %s (%s)", d.them, claimed, d.line()))
 	case disp != "-" && disp != "lost" && disp != claimed:
 		cs.Fail("dispatched-under-unproven-key:"+tag, fmt.Sprintf("message dispatched with key %s attached, proven key is %q (%s)", disp, claimed, d.line()))
-	case disp != "-" && d.role == "accept" && d.id != claimed:
-		cs.Fail("declared-identity-not-checked:"+tag, fmt.Sprintf("peer proved %s, declared %s, was served (%s)", claimed, d.id, d.line()))
+	case disp != "-" && d.role == "accept" && d.idKey() != claimed:
+		cs.Fail("declared-identity-not-checked:"+tag, fmt.Sprintf("peer proved %s, declared the key of %s, was served (%s)", claimed, d.idKey(), d.line()))
 	case disp == "lost":
 		cs.Fail("hang", "handshake accepted but the probe message was never dispatched: "+d.line())
 	case hs == "ok" && !own:
@@ -497,6 +508,18 @@ func c08gen(c *h.Ctx, yield func(*h.Case)) {
 		{"other-scheme-uri-only", "dial", func(d *c08desc) { d.uris = "http@new:v" }},
 		{"expired", "both", func(d *c08desc) { d.time = "expired" }},
 		{"not-yet-valid", "both", func(d *c08desc) { d.time = "future" }},
+		// around the edges of the validity period (90 s either side)
+		{"expired-90s-ago", "both", func(d *c08desc) { d.time = "justexpired" }},
+		{"expires-in-90s", "both", func(d *c08desc) { d.time = "endsoon" }},
+		{"valid-in-90s", "both", func(d *c08desc) { d.time = "justfuture" }},
+		{"valid-since-90s", "both", func(d *c08desc) { d.time = "juststarted" }},
+		// other spellings of the same key in the common name
+		{"name-uppercase-hex", "both", func(d *c08desc) { d.cn, d.sig = "newup:v", "v/cur/newup:v" }},
+		{"name-uppercase-hex-no-uris", "both", func(d *c08desc) { d.uris, d.cn, d.sig = "none", "newup:v", "v/cur/newup:v" }},
+		{"name-trailing-bytes", "both", func(d *c08desc) { d.cn, d.sig = "newtail:v", "v/cur/newtail:v" }},
+		{"name-trailing-bytes-proof-over-canonical-name", "both", func(d *c08desc) { d.cn = "newtail:v" }},
+		{"name-uppercase-hex-of-other-key-own-proof", "dial", func(d *c08desc) { d.op, d.cn, d.sig = "a", "newup:a", "a/cur/newup:a" }},
+		{"uri-uppercase-hex-only", "dial", func(d *c08desc) { d.uris = "newup:v" }},
 		{"not-self-signed", "both", func(d *c08desc) { d.signedby = "other" }},
 		{"two-certificates", "both", func(d *c08desc) { d.ncerts = 2 }},
 		{"three-certificates", "both", func(d *c08desc) { d.ncerts = 3 }},
@@ -511,6 +534,19 @@ func c08gen(c *h.Ctx, yield func(*h.Case)) {
 		{"identity-names-other-key", "accept", func(d *c08desc) { d.id = "o" }},
 		{"identity-names-honest-node", "accept", func(d *c08desc) { d.id = "h" }},
 		{"identity-missing", "accept", func(d *c08desc) { d.id = "none" }},
+		// the three fields of the declared identity are independent on the wire: the key, the
+		// deprecated ID field, the address. Only the key may decide.
+		{"identity-key-of-other-idfield-of-proven", "accept", func(d *c08desc) {
+			d.op, d.uris, d.cn, d.sig, d.id = "a", "new:a", "new:a", "a/cur/new:a", "v/a"
+		}},
+		{"identity-key-of-other-idfield-of-proven-connected", "accept", func(d *c08desc) {
+			d.op, d.uris, d.cn, d.sig, d.id, d.live = "a", "new:a", "new:a", "a/cur/new:a", "v/a", "v"
+		}},
+		{"identity-key-of-honest-node-idfield-of-proven", "accept", func(d *c08desc) { d.id = "h/v/own" }},
+		{"identity-key-of-other-idfield-of-proven-own-address", "accept", func(d *c08desc) { d.id = "o/v/own" }},
+		{"identity-key-proven-idfield-of-other", "accept", func(d *c08desc) { d.id = "v/o" }},
+		{"identity-key-proven-idfield-of-honest-node-tcp-address", "accept", func(d *c08desc) { d.id = "v/h/tcp" }},
+		{"identity-key-proven-own-address", "accept", func(d *c08desc) { d.id = "v/v/own" }},
 		// the same while the holder of the declared key has a live connection of its own
 		{"identity-names-connected-peer", "accept", func(d *c08desc) {
 			d.op, d.uris, d.cn, d.sig, d.id, d.live = "a", "new:a", "new:a", "a/cur/new:a", "v", "v"
@@ -575,6 +611,29 @@ func c08gen(c *h.Ctx, yield func(*h.Case)) {
 			}
 		}
 	}
+	// what the honest node itself presents, per role, suite, TLS version and kind of nonce handed to it;
+	// two real nodes
+	for _, suite := range suitesL {
+		for _, role := range []string{"dial", "accept"} {
+			for _, tlsv := range []string{"12", "13"} {
+				if !c.Thorough() && suite != "ed" && tlsv == "12" {
+					continue
+				}
+				for _, nonce := range []string{"ok", "short", "none", "two"} {
+					if role == "accept" && nonce == "two" {
+						continue
+					}
+					c.Count("class=honestcert")
+					yield(&h.Case{Class: "honestcert:" + role + ":" + nonce, Ops: []string{
+						fmt.Sprintf("c08 honestcert role=%s suite=%s tlsv=%s nonce=%s", role, suite, tlsv, nonce)}})
+				}
+			}
+		}
+		for _, them := range []string{"v", "o", "a"} {
+			c.Count("class=pair")
+			yield(&h.Case{Class: "pair:" + them, Ops: []string{fmt.Sprintf("c08 pair suite=%s them=%s", suite, them)}})
+		}
+	}
 	// relays for the other suites and TLS 1.3 (thorough)
 	if c.Thorough() {
 		for _, suite := range suitesL {
@@ -587,7 +646,7 @@ func c08gen(c *h.Ctx, yield func(*h.Case)) {
 	}
 	// combinations: an honest description with one to three random deviations
 	pick := func(l ...string) string { return l[r.Intn(len(l))] }
-	names := []string{"new:v", "new:a", "old:v", "old:a", "new:h", "new:o", "junk"}
+	names := []string{"new:v", "new:a", "old:v", "old:a", "new:h", "new:o", "junk", "newup:v", "newtail:a"}
 	for i := 0; i < c.Pick(150, 5000); i++ {
 		role, suite, tlsv := pick("dial", "accept"), pick("ed", "ed", "g1", "g2"), pick("12", "13")
 		d := honest(role, suite, tlsv, pick("v", "v", "a"))
@@ -605,7 +664,7 @@ func c08gen(c *h.Ctx, yield func(*h.Case)) {
 			case 3:
 				d.sig = pick("none", "junk", "flip")
 			case 4:
-				d.time = pick("expired", "future")
+				d.time = pick("expired", "future", "justexpired", "endsoon", "justfuture", "juststarted")
 			case 5:
 				d.signedby = "other"
 			case 6:
@@ -622,6 +681,12 @@ func c08gen(c *h.Ctx, yield func(*h.Case)) {
 					d.id = pick("v", "a", "o", "h", "none")
 					if d.id != "h" && d.id != "none" && r.Intn(2) == 0 {
 						d.live = d.id
+					}
+					if d.id != "none" && r.Intn(3) == 0 {
+						d.id += "/" + pick("v", "a", "o", "h")
+						if r.Intn(2) == 0 {
+							d.id += "/" + pick("tls", "tcp", "own")
+						}
 					}
 				}
 			case 10:
